@@ -576,7 +576,8 @@ func (m *Mint) RequestMeltQuote(meltQuoteRequest nut05.PostMeltQuoteBolt11Reques
 	if bolt11.MSatoshi == 0 {
 		return storage.MeltQuote{}, cashu.BuildCashuError("invoice has no amount", cashu.MeltQuoteErrCode)
 	}
-	invoiceSatAmount := uint64(bolt11.MSatoshi) / 1000
+	// round up so that the sats burned always cover the msats that will be paid
+	invoiceSatAmount := (uint64(bolt11.MSatoshi) + 999) / 1000
 	quoteAmount := invoiceSatAmount
 
 	// check if a mint quote exists with the same invoice.
@@ -607,7 +608,7 @@ func (m *Mint) RequestMeltQuote(meltQuoteRequest nut05.PostMeltQuoteBolt11Reques
 				}
 				isMpp = true
 				amountMsat = mpp.AmountMsat
-				quoteAmount = amountMsat / 1000
+				quoteAmount = (amountMsat + 999) / 1000
 				m.logInfof("got melt quote request to pay partial amount '%v' of invoice with amount '%v'",
 					quoteAmount, invoiceSatAmount)
 			} else {
@@ -852,7 +853,7 @@ func (m *Mint) MeltTokens(ctx context.Context, meltTokensRequest nut05.PostMeltB
 				ctx,
 				meltQuote.InvoiceRequest,
 				meltQuote.AmountMsat,
-				m.lightningClient.FeeReserve(meltQuote.AmountMsat/1000),
+				meltQuote.FeeReserve,
 			)
 		} else {
 			m.logInfof("attempting to pay invoice: %v", meltQuote.InvoiceRequest)
